@@ -325,7 +325,15 @@ func mutate(t *rapid.T, flight []byte) ([]byte, string) {
 	if last != nil {
 		exts = append(exts, *last)
 	}
-	return joinHello(prefix, exts), []string{"grease", "permuted", "dropped", "sni-extra-name+padding", "list-values"}[kind]
+	out, label := joinHello(prefix, exts), []string{"grease", "permuted", "dropped", "sni-extra-name+padding", "list-values"}[kind]
+	// the version field of the record header says nothing about the hello inside: clients have sent 3.0 .. 3.4 there
+	// (Go's own client always writes 3.1), and what a real server makes of each is the reference's business
+	if v := rapid.IntRange(0, 9).Draw(t, "recordVersion"); v <= 4 && len(out) > 3 {
+		out = append([]byte(nil), out...)
+		out[1], out[2] = 3, byte(v)
+		label += fmt.Sprintf("+record-version-3.%d", v)
+	}
+	return out, label
 }
 
 // ---- the comparison ----
